@@ -65,31 +65,27 @@ func (f *globalMaxInflight) add(n int32) int32 {
 }
 
 func (f *globalMaxInflight) SetState(instance string, requestId int64, current int32) (bool, int32, error) {
-	f.lock.RLock()
+	// The whole update runs under the write lock: the per-instance state and the
+	// running total change together, so reports racing with each other or with
+	// the removal of the instance can neither subtract a count twice nor leave
+	// the delta of a removed instance in the total.
+	f.lock.Lock()
+	defer f.lock.Unlock()
+
 	state, ok := f.instanceStates[instance]
-	f.lock.RUnlock()
 
 	if current < 0 {
 		if ok {
-			f.lock.Lock()
 			delete(f.instanceStates, instance)
-			f.add(-state.count)
-			f.lock.Unlock()
-			current = 0
+			if state != nil {
+				f.add(-atomic.LoadInt32(&state.count))
+			}
 		}
 		return false, -1, nil
 	} else if !ok || state == nil {
-		f.lock.Lock()
-		state, ok = f.instanceStates[instance]
-		if !ok || state == nil {
-			state = &instanceState{}
-			f.instanceStates[instance] = state
-		}
-		f.lock.Unlock()
+		state = &instanceState{}
+		f.instanceStates[instance] = state
 	}
-
-	f.lock.RLock()
-	defer f.lock.RUnlock()
 
 	if requestId > 0 {
 		oldId := atomic.LoadInt64(&state.requestId)
@@ -103,12 +99,14 @@ func (f *globalMaxInflight) SetState(instance string, requestId int64, current i
 	delta := current - old
 	overflowed := f.add(delta)
 
-	if overflowed > 0 {
+	if overflowed > 0 && delta > 0 {
+		// only an increase is refused; a report that lowers the count is always
+		// applied, also while the total is above a lowered limit
 		atomic.AddInt32(&state.count, -delta)
 		f.add(-delta)
 		return false, old, nil
 	}
-	if overflowed == 0 && current > 0 {
+	if overflowed >= 0 && current > 0 {
 		return false, current, nil
 	}
 	return true, current, nil
